@@ -165,11 +165,12 @@ func CheckIncoming(stored, incoming *Item) error {
 	}
 
 	// Cas should be ignored if not present
-	if stored.Cas == 0 {
+	if incoming.Cas == 0 {
 		return nil
 	}
 
-	if stored.Cas != incoming.Cas {
+	// The CAS value names the sequence number of the item being overwritten.
+	if stored.Seq != incoming.Cas {
 		return ErrCasHashMismatched
 	}
 
